@@ -410,6 +410,33 @@ fn subjects(src: &mut Src, st: &mut Stats, _env: &Env) -> CaseResult {
                 }
             }
         }
+        // the slice node on its own, in an expression object assembled by hand from the
+        // public Ast (`Expression::new`): the same rule without the projection the parser
+        // wraps around it (so nothing is dropped from an array, and a non-array still gives null)
+        if stepv != 0 {
+            let ast = jmespath::ast::Ast::Slice { offset: src.below(9), start: a, stop: b2, step: stepv };
+            let mut rt = jmespath::Runtime::new();
+            rt.register_builtin_functions();
+            let subject_json = doc.to_json();
+            let got = crate::imp::search_ast("", ast, &rt, &subject_json);
+            let want = match &doc {
+                J::Arr(items) => J::Arr(slice_indices(items.len(), a, b2, stepv).into_iter().map(|i| items[i].clone()).collect()),
+                _ => J::Null,
+            };
+            st.eval();
+            match got {
+                ImpOut::Ok(g) if g.deep_eq(&want) => {}
+                other => {
+                    return Err(Failure::new(
+                        "subjects",
+                        if matches!(doc, J::Arr(_)) { "wrong-slice" } else { "slice-of-non-array-not-null" },
+                        format!("a bare Ast::Slice node [{:?}:{:?}:{}] gave {} expected {}", a, b2, stepv, other.brief(), want.to_json()),
+                        json!({"ast": "Slice", "start": a, "stop": b2, "step": stepv, "document": subject_json}),
+                    ))
+                }
+            }
+            st.class("bare-slice-node");
+        }
     }
     Ok(())
 }
